@@ -41,7 +41,8 @@ def main():
     os.makedirs(out, exist_ok=True)
     ported = os.path.exists(os.path.join(out, 'patch.original.diff'))   # patch.diff was ported by hand: keep it
     for f in ('patch.diff', 'demo.py', 'README.md'):
-        if os.path.exists(os.path.join(src, f)) and not (ported and f == 'patch.diff'):
+        if os.path.exists(os.path.join(src, f)) and not (ported and f == 'patch.diff') \
+                and os.path.abspath(src) != os.path.abspath(out):
             shutil.copy(os.path.join(src, f), os.path.join(out, f))
     meta_path = os.path.join(out, 'meta.json')
     meta = json.load(open(meta_path)) if os.path.exists(meta_path) else {}
